@@ -444,4 +444,67 @@ theorem current_thinker_total (c : Compose.Conf) (var : Option Variant) (hw : c.
   · intro ha
     exact hlen (hchk ha)
 
+
+/-! ## concrete schedules: the stale-thinker defect, and the findings of work package botglue in the composed system
+
+The searching player is the stub of the correspondence harness (`stubSearcher`: it answers what the event says), so the
+runs below are exactly op sequences of `corpus/C07/compose-*.ops`, replayed on the real code on every check. -/
+
+namespace Ex
+def zb : Array W := Array.replicate 64 0#64
+def quiet : CheckOracle := { curV := 0, curDepth := 3, prevV := 0 }
+def conf (color : Color) (size : Nat) (who : Who) (guard : Bool) : Compose.Conf :=
+  { bot := { basis := zb, color := color, gameStr := "Game#100", fixed := true }, size := size, who := who, guard := guard }
+def go (c : Compose.Conf) (evs : List (Compose.Ev Move)) : Compose.St Unit Move :=
+  Compose.run c stubSearcher (Compose.start c 600 ()) evs
+def srv (w : List String) (m : Move) : Compose.Ev Move := .deliver ("Game#100" :: w) (some m)
+def tm : Compose.Ev Move := .deliver ["Game#100", "Time", "590", "590"] none
+def ru : Compose.Ev Move := .deliver ["Game#100", "RequestUndo"] none
+def un : Compose.Ev Move := .deliver ["Game#100", "Undo"] none
+def zm : Move := Bot.zeroMove
+def slideR (x y : Int) : Move := { x := x, y := y, type := Facts.mtSlideRight, slides := slide1 }
+def slideL (x y : Int) : Move := { x := x, y := y, type := Facts.mtSlideLeft, slides := slide1 }
+
+/-- bot Black, centre variant, 5×5.  White plays `c3`; the bot's thinker 1 is searching (it holds `moveLock`).  White
+asks to take the move back, the bot agrees, `Undo`; White plays `c3` again and takes it back again — all while thinker 1
+has not noticed its cancellation.  Thinkers 2 (started on the empty board) and 3 (started after the second `c3`) are
+parked on the mutex.  Thinker 1 returns; 2 runs through; 3 enters `GetMove` for a ply-1 position on a record of ONE
+position. -/
+def staleEvs : List (Compose.Ev Move) :=
+  [.enter 0 quiet, .leave 0 zm, srv ["P", "C3"] (place 2 2), tm, .enter 1 quiet, ru, un, srv ["P", "C3"] (place 2 2), tm, ru, un,
+   .leave 1 zm, .enter 2 quiet, .leave 2 zm, .enter 3 quiet]
+
+/-- bot Black, no rule.  Thinker 1 is searching; White takes the move back (thinker 2 is parked on the mutex) and then
+resigns: `Over`, `PlayGame` returns, `Friendly.GameOver` sets `f.g = nil`.  Thinker 1 returns, thinker 2 enters. -/
+def overEvs : List (Compose.Ev Move) :=
+  [.enter 0 quiet, .leave 0 zm, srv ["P", "C3"] (place 2 2), tm, .enter 1 quiet, ru, un,
+   .deliver ["Game#100", "Over", "0-1"] none, .leave 1 zm, .enter 2 quiet]
+
+/-- Taktician pondering on White's time (the default `-use-opponent-time`): White moves, the clock line starts thinker 1,
+White disconnects (`Abandoned.`) before the pondering search has stopped. -/
+def ponderEvs : List (Compose.Ev Move) :=
+  [.enter 0 quiet, srv ["P", "C3"] (place 2 2), tm, .deliver ["Game#100", "Abandoned."] none, .leave 0 zm, .enter 1 quiet]
+
+/-- the cairn opening of `C20.cairn_undo_resigns`, bot White, 5×5, through the loop: `a1` (searched), `e5`, scripted `b3`,
+`c2`, scripted `b3>`; Black asks to take the slide back, the bot agrees, `Undo`; thinker 6 checks `c2` again -/
+def cairnEvs : List (Compose.Ev Move) :=
+  [.enter 0 quiet, .leave 0 (place 0 0), .enter 1 quiet, .leave 1 zm, srv ["P", "E5"] (place 4 4), tm, .enter 2 quiet, .leave 2 zm,
+   .enter 3 quiet, .leave 3 zm, srv ["P", "C2"] (place 2 1), tm, .enter 4 quiet, .leave 4 zm, .enter 5 quiet, .leave 5 zm, ru, un,
+   .enter 6 quiet]
+
+/-- `C20.doubleStack_resume_resigns`, bot Black, 5×5: the server replays `c3 d4 d4<` in one burst (a resumed game), then
+the clock line; the bot scripts `b1`; White returns `c4>`; the next call resigns -/
+def dsEvs : List (Compose.Ev Move) :=
+  [.enter 0 quiet, .leave 0 zm, srv ["P", "C3"] (place 2 2), srv ["P", "D4"] (place 3 3), srv ["M", "D4", "C4", "1"] (slideL 3 3), tm,
+   .enter 1 quiet, .leave 1 zm, .enter 2 quiet, .leave 2 zm, srv ["M", "C4", "D4", "1"] (slideR 2 3), tm, .enter 3 quiet]
+
+/-- bot White, double stack, 4×4, a game resumed at ply 4: `a3` (with its clock line: the rule notes Black's stone), then
+`a1 a1> b3` in one burst and the clock line.  The thinker of ply 4 accepts `b3` and asks the rule for White's scripted
+return slide: `dir(whiteTmp, whitePlace)` with both still `(0, 0)` -/
+def dsPanicEvs : List (Compose.Ev Move) :=
+  [srv ["P", "A3"] (place 0 2), tm, .enter 1 quiet, .leave 1 zm, srv ["P", "A1"] (place 0 0), srv ["M", "A1", "B1", "1"] (slideR 0 0),
+   srv ["P", "B3"] (place 1 2), tm, .enter 2 quiet]
+end Ex
+
+
 end C07
